@@ -36,7 +36,7 @@ package flamego
 //@   modifies nothing
 
 //@ func NewResponseWriter
-//@   props C13
+//@   props C13 C05
 //@   requires w != nil
 //@   ghost before exit: result.(*responseWriter).hdr0 = w.hdrCount
 //@   ghost before exit: result.(*responseWriter).sent0 = w.hdrSent
@@ -61,7 +61,7 @@ package flamego
 //@   loop 0 decreases i + 1
 
 //@ func (*responseWriter).WriteHeader
-//@   props C13
+//@   props C13 C05
 //@   requires rwInv(w)
 //@   requires 100 <= s && s <= 999
 //@   modifies w.status, w.writeHeaderOnce.fired, w.hookCalls, w.hookOrder, w.hdrAtHooks, w.nHooksRun,
@@ -74,7 +74,7 @@ package flamego
 //@   ensures old(w.status) != 0 ==> w.status == old(w.status) && w.ResponseWriter.hdrCount == old(w.ResponseWriter.hdrCount) && w.hookCalls == old(w.hookCalls)
 
 //@ func (*responseWriter).Write
-//@   props C13
+//@   props C13 C05
 //@   requires rwInv(w)
 //@   modifies w.status, w.size, w.writeHeaderOnce.fired, w.hookCalls, w.hookOrder, w.hdrAtHooks, w.nHooksRun,
 //@            w.ResponseWriter.hdrCount, w.ResponseWriter.hdrSent, w.ResponseWriter.firstStatus, w.ResponseWriter.bodyAtHdr, w.ResponseWriter.ctAtHdr, w.ResponseWriter.bodyBytes, w.ResponseWriter.lastWrite
@@ -156,7 +156,7 @@ package flamego
 //@   ensures old(c.(*context).responseWriter.isWritten) ==> c.(*context).responseWriter.isWritten
 
 //@ func (*context).run
-//@   props C03
+//@   props C03 C05
 //@   skip typeassert nil@call:handleReturn
 //@   call Invoke#0 as handlerCallback(c, h)
 //@   requires ctxInv(c)
@@ -175,7 +175,7 @@ package flamego
 //@   loop 0 decreases len(c.handlers) + 1 - c.index
 
 //@ func (*context).Next
-//@   props C03
+//@   props C03 C05
 //@   requires ctxInv(c)
 //@   modifies c.index, c.started, c.responseWriter.isWritten
 //@   panics true
@@ -191,7 +191,7 @@ package flamego
 //@ define handlersNonNil(hs []Handler) bool = forall k int :: 0 <= k && k < len(hs) ==> hs[k] != nil
 
 //@ func newContext
-//@   props C03
+//@   props C03 C05
 //@   requires r != nil && w != nil
 //@   requires handlersNonNil(handlers)
 //@   ensures dyn(result) == type(*context) && fresh(result)
@@ -201,7 +201,7 @@ package flamego
 //@   ensures fresh(result.(*context).Injector) && fresh(result.(*context).responseWriter)
 
 //@ func (*Flame).createContext
-//@   props C03
+//@   props C03 C05
 //@   requires r != nil && w != nil
 //@   requires handlersNonNil(handlers) && handlersNonNil(f.handlers)
 //@   ensures dyn(result) == type(*context) && fresh(result)
@@ -238,7 +238,7 @@ package flamego
 //@   ensures req.chains == old(req.chains) + 1
 
 //@ func (*router).Route$1
-//@   props C03 C07
+//@   props C03 C07 C05
 //@   also functype route.Handler
 //@   requires-captured handlersNonNil(handlers) && r != nil && r.contextCreator != nil
 //@   modifies req.chains
@@ -246,7 +246,7 @@ package flamego
 //@   ghost before run#0: req.chains = req.chains + 1
 
 //@ func (*router).NotFound$1
-//@   props C03 C07
+//@   props C03 C07 C05
 //@   also functype http.HandlerFunc
 //@   requires-captured handlersNonNil(handlers) && r != nil && r.contextCreator != nil
 //@   modifies req.chains
@@ -274,7 +274,7 @@ package flamego
 //@ define shortcutInv(r *router) bool = forall m string, p string :: has(r.staticRoutes, m) && has(r.staticRoutes[m], p) ==> shortcutOK(r.staticRoutes[m][p])
 
 //@ func (*router).ServeHTTP
-//@   props C07 C02 C10
+//@   props C07 C02 C10 C05
 //@   requires[C10] shortcutAgrees(r)
 //@   ghost before dyn#0: req.chosen = leaf
 //@   ghost before dyn#1: req.chosen = leaf
@@ -303,7 +303,7 @@ package flamego
 //@     (forall k int :: 0 <= k && k < len(f.befores) ==> f.befores[k] != nil)
 
 //@ func (*Flame).ServeHTTP
-//@   props C07
+//@   props C07 C05
 //@   requires flameWF(f) && treeWF()
 //@   requires w != nil && r != nil && r.URL != nil
 //@   modifies r.chains, r.URL.Path, route.Segment.str, route.Segment.strOnce.fired, route.Route.str, route.Route.strOnce.fired
@@ -335,7 +335,7 @@ package flamego
 //@   props C18
 //@   ensures result == c.params
 //@ func (*context).Param
-//@   props C18
+//@   props C18 C05
 //@   ensures result == c.params[name]
 //@ func (*context).ParamInt
 //@   props C18
@@ -345,7 +345,7 @@ package flamego
 //@   ensures result == parseIntVal(c.params[name], 64)
 
 //@ func (*context).Query
-//@   props C18
+//@   props C18 C05
 //@   requires reqOK(c)
 //@   ensures result == queryOr(c, name, len(defaultVal) > 0, ite(len(defaultVal) > 0, defaultVal[0], ""))
 //@ func (*context).QueryBool
@@ -395,14 +395,14 @@ package flamego
 //@   loop 0 invariant forall key string :: visited(key) ==> key != name
 
 //@ func (*context).SetCookie
-//@   props C18
+//@   props C18 C05
 //@   requires reqOK(c)
 //@   modifies hdrOf(c.responseWriter)[*]
 //@   assert before String#0: cookie.Value == queryEscape(old(cookie.Value))
 //@   ensures len(hdrOf(c.responseWriter)["Set-Cookie"]) == len(old(hdrOf(c.responseWriter)["Set-Cookie"])) + 1
 
 //@ func (*context).Cookie
-//@   props C18
+//@   props C18 C05
 //@   requires reqOK(c)
 //@   ensures result == ite(reqHasCookie(c.request.Request, name), cookieDecode(reqCookieRaw(c.request.Request, name)), "")
 
@@ -789,7 +789,7 @@ package flamego
 
 // pairs -> map (a later pair wins); "withOptional" is extracted and removed; unknown names panic
 //@ func (*router).URLPath
-//@   props C12
+//@   props C12 C05
 //@   requires routerWF(r) && treeWF()
 //@   modifies route.Route.str
 //@   panics !has(r.namedRoutes, name)
